@@ -3,7 +3,7 @@ Line protocol shared with the Rust harness (harness/wire.rs): a request is a key
 followed by natural numbers; lists are length-prefixed.  Anything that does not parse is
 answered `bad-case` — never defaulted.
 -/
-import Vet.Model.Resolve
+import Vet.Model.Update
 namespace Vet.Wire
 open Vet
 
@@ -233,6 +233,30 @@ def conclusionToks : Conclusion → List Nat
   | .success a b c => [0] ++ listToks a ++ listToks b ++ listToks c
   | .failViolation vs => [1, vs.length] ++ vs.flatMap (fun (i, cs) => [i, cs.length] ++ cs.flatMap conflictToks)
   | .failVet fs => [2, fs.length] ++ fs.flatMap (fun (i, c) => [i, c])
+
+def updateMode : P UpdateMode := do
+  let m ← mode
+  let a ← bool
+  let b ← bool
+  let c ← bool
+  pure ⟨m, a, b, c⟩
+
+/-- default mode and per-name overrides -/
+def modeTable : P (Nat → UpdateMode) := do
+  let d ← updateMode
+  let ov ← list (pair nat updateMode)
+  pure (fun n => (assoc? n ov).getD d)
+
+def idxMapToks (t : List (Nat × List Nat)) : List Nat :=
+  t.length :: t.flatMap (fun (n, l) => n :: listToks l)
+
+def exemptionToks (x : Exemption) : List Nat := [x.version] ++ listToks x.criteria ++ [b2n x.suggest]
+
+def updatesToks (u : Updates) : List Nat :=
+  idxMapToks u.audits
+  ++ [u.imports.length] ++ u.imports.flatMap (fun (a, w) => idxMapToks a ++ idxMapToks w)
+  ++ idxMapToks u.publishers ++ idxMapToks u.unpublished
+  ++ [u.exemptions.length] ++ u.exemptions.flatMap (fun (n, l) => [n, l.length] ++ l.flatMap exemptionToks)
 
 def resultToks : PkgResult → List Nat
   | .firstParty => [0]
